@@ -787,6 +787,18 @@ def probes():
         ("out", "Interpolation.root", [28.0, 28.0, 1000], ("INTERP_ROOT",)),
         ("out", "CurveFitting.linear_fitting", [], ("CF_DEG",)),
     ]
+    # parallactic angle next to the surface tan(lat) cos(dec) = sin(dec) cos(H), where it is +-90 degrees (only
+    # AT the zenith, where the hour angle is 0 as well, is there no angle to return)
+    for hh, dd in ((47.3, 33.1), (-47.3, 33.1), (120.0, 20.0), (10.0, -60.0), (300.0, 5.0)):
+        lat0 = math.degrees(math.atan(math.tan(math.radians(dd)) * math.cos(math.radians(hh))))
+        for off in (1e-7, -1e-7, 1e-5, -1e-5, 1e-4, 1e-3, -1e-2):
+            P.append(("angle", "Coordinates.parallactic_angle", [("A", hh), ("A", dd), ("A", lat0 + off)], None))
+    # duplicated abscissae that are not neighbours in the order given
+    P.append(("refuse", "ctor.Interpolation", [[1.0, 2.5, 1.0, 4.0], [3.0, 4.0, 5.0, 6.0]], None))
+    P.append(("refuse", "ctor.Interpolation", [[1.0, 2.5, 1.0 + 5e-11, 4.0], [3.0, 4.0, 5.0, 6.0]], None))
+    P.append(("refuse", "ctor.Interpolation", [1, 5, 2, 6, 1, 7], None))
+    P.append(("refuse", "ctor.CurveFitting", [[1.0, 2.0, 3.0], [1.0, 2.0]], None) if False else
+             ("refuse", "ctor.Interpolation", [[4.0, 2.5, 1.0, 4.0], [3.0, 4.0, 5.0, 6.0]], None))
     for ctor in ("Epoch", "Angle"):
         for v in (float("nan"), float("inf"), -float("inf"), 1e300):
             P.append(("out", "ctor." + ctor, [v], None))
@@ -815,10 +827,13 @@ def check_probe(case):
         try:
             args = [mk(t, None) for t in tags]
             if name.startswith("ctor."):
-                cls = {"Epoch": Epoch, "Angle": Angle}[name.split(".")[1]]
+                cls = {"Epoch": Epoch, "Angle": Angle, "Interpolation": Interpolation}[name.split(".")[1]]
                 obj = cls(*args)
                 # an object that was accepted must be usable
-                r = (obj, obj.get_full_date()) if cls is Epoch else (obj, obj.dms_str())
+                if cls is Interpolation:
+                    r = (len(obj), obj(1.7), obj.derivative(1.7))
+                else:
+                    r = (obj, obj.get_full_date()) if cls is Epoch else (obj, obj.dms_str())
             else:
                 fn, is_method = resolve(name)
                 if is_method:
@@ -834,7 +849,7 @@ def check_probe(case):
             signal.alarm(0)
             signal.signal(signal.SIGALRM, old)
     except (TypeError, ValueError) as ex:
-        if kind == "in":
+        if kind in ("in", "angle"):
             return ["%s raised %s: %s on an input inside the documented domain" % (shown, type(ex).__name__, ex)]
         return []
     except ZeroDivisionError as ex:
@@ -845,6 +860,8 @@ def check_probe(case):
         return ["%s raised %s: %s (only TypeError/ValueError are documented)" % (shown, type(ex).__name__, ex)]
     if not all_finite(r) or any(isinstance(v, complex) for v in (r if isinstance(r, tuple) else (r,))):
         return ["%s returned a non-value: %r" % (shown, canon(r))]
+    if kind == "angle" and not isinstance(r, Angle):
+        return ["%s returned %r where an Angle is due (the input is not the documented singular point)" % (shown, canon(r))]
     if kind == "refuse":
         # the documentation of this callable promises ValueError for this input
         return ["%s returned %r although its documentation promises a ValueError for this input" % (shown, canon(r))]
@@ -1020,10 +1037,18 @@ def dense_cases():
     for name, sweeps in sorted(SP.DENSE.items()):
         if name not in S:
             continue
-        for (pi, lo, hi, step) in sweeps:
+        for sw in sweeps:
+            pi, lo, hi, step = sw[:4]
+            fixed = sw[4] if len(sw) > 4 else None
             kind = S[name]["params"][pi][0]
             for v in SP.dense_values(lo, hi, step):
-                out.append((name, pi, ("A", float(v)) if kind == "angle" else v))
+                if kind == "angle":
+                    tag = ("A", float(v))
+                elif kind == "epoch":
+                    tag = ("E", 2451545.0 + (v - 2000.0) * 365.25 + 182.0)      # middle of year v
+                else:
+                    tag = v
+                out.append((name, pi, tag) if fixed is None else (name, pi, tag, fixed))
     return out
 
 
@@ -1035,20 +1060,27 @@ def check_dense(case):
     al = alphabets(S[name])
     choice = [a[0] for a in al]
     choice[pi] = ("alt", v)
+    for k, fv in (case.get("fixed") or {}).items():
+        choice[int(k)] = ("alt", fv)
     return check_tuple(name, choice)
 
 
 def run_dense(block, ctx):
     g0 = global_state()
-    for (name, pi, v) in block:
+    for item in block:
+        name, pi, v = item[:3]
+        fixed = item[3] if len(item) > 3 else None
         ctx.evals += 1
         ctx.transitions += 1
         if not (isinstance(v, int) or (isinstance(v, float) and v == int(v))):
             ctx.nt_count += 1           # a value between the integers
         else:
             ctx.nt(key=(name, pi))
-        for site, msg in check_dense({"callable": name, "position": pi, "value": v}):
-            ctx.viol({"callable": name, "position": pi, "value": v}, msg, site="dense_" + site)
+        case = {"callable": name, "position": pi, "value": v}
+        if fixed:
+            case["fixed"] = {str(k): fv for k, fv in fixed.items()}
+        for site, msg in check_dense(case):
+            ctx.viol(case, msg, site="dense_" + site)
         ctx.outcome((name, pi))
     dg = diff_keys(g0, global_state())
     if dg:
